@@ -291,3 +291,30 @@ From DD Require Import Props.C17Inline.
 Theorem c15_inline_closed : ltac:(let t := type of rw_inline_wf in exact t).
 Proof. exact rw_inline_wf. Qed.
 Print Assumptions c15_inline_closed.
+
+(* closure of 15 further mutators (Model/SmtlibRw.v, Model/ConstRw.v; statements in Props/SmtlibRwProps.v and Props/ConstRwProps.v) *)
+From DD Require Import Props.SmtlibRwProps Props.ConstRwProps.
+Theorem c15_simplify_logic_closed : ltac:(let t := type of more1_simplify_logic_closed in exact t).
+Proof. exact more1_simplify_logic_closed. Qed.
+Print Assumptions c15_simplify_logic_closed.
+Theorem c15_simplify_quoted_closed : ltac:(let t := type of more1_simplify_quoted_closed in exact t).
+Proof. exact more1_simplify_quoted_closed. Qed.
+Print Assumptions c15_simplify_quoted_closed.
+Theorem c15_remove_rec_fun_closed : ltac:(let t := type of more1_remove_rec_fun_closed in exact t).
+Proof. exact more1_remove_rec_fun_closed. Qed.
+Print Assumptions c15_remove_rec_fun_closed.
+Theorem c15_negate_quant_closed : ltac:(let t := type of more1_negate_quant_closed in exact t).
+Proof. exact more1_negate_quant_closed. Qed.
+Print Assumptions c15_negate_quant_closed.
+Theorem c15_arith_simp_const_closed : ltac:(let t := type of rw_arith_simp_const_wf in exact t).
+Proof. exact rw_arith_simp_const_wf. Qed.
+Print Assumptions c15_arith_simp_const_closed.
+Theorem c15_bv_simp_consts_closed : ltac:(let t := type of rw_bv_simp_consts_wf in exact t).
+Proof. exact rw_bv_simp_consts_wf. Qed.
+Print Assumptions c15_bv_simp_consts_closed.
+Theorem c15_bv_to_bool_closed : ltac:(let t := type of rw_bv_to_bool_wf in exact t).
+Proof. exact rw_bv_to_bool_wf. Qed.
+Print Assumptions c15_bv_to_bool_closed.
+Theorem c15_str_replace_all_closed : ltac:(let t := type of rw_str_replace_all_wf in exact t).
+Proof. exact rw_str_replace_all_wf. Qed.
+Print Assumptions c15_str_replace_all_closed.
